@@ -72,6 +72,13 @@ func handle(line string) (reply string) {
 }
 
 func runOp(name string, hexArgs []string, dumpDir string) (reply string) {
+	rcvMode = 0
+	if base, mode, found := strings.Cut(name, "@"); found {
+		name = base
+		if _, err := fmt.Sscanf(mode, "%d", &rcvMode); err != nil {
+			return "err bad-receiver-mode"
+		}
+	}
 	f, ok := ops[name]
 	if !ok {
 		return "err unknown-op:" + name
